@@ -446,6 +446,8 @@ func NodeStartPos(node *Node) token.LnColPos {
 		return node.ArithmeticExpr().LHS.StartPos()
 	case TypeConditionalExpr:
 		return node.ConditionalExpr().LHS.StartPos()
+	case TypeInExpr:
+		return node.InExpr().LHS.StartPos()
 	case TypeAssignmentExpr:
 		return node.AssignmentExpr().LHS[0].StartPos()
 
